@@ -5,6 +5,7 @@ import (
 	"os"
 	"path"
 	"strings"
+	"time"
 )
 
 // ---------------------------------------------------------------------------
@@ -106,10 +107,25 @@ func (r *Run) checkDataflow() *Eval {
 				continue
 			}
 			seen := map[string]int{}
+			first := map[string]time.Duration{}
+			starved := map[string]bool{}
 			for _, j := range g.Jobs {
-				seen[j.Phase+fmt.Sprint(j.Chunk)]++
+				k := j.Phase + fmt.Sprint(j.Chunk)
+				seen[k]++
+				if t0, ok := first[k]; !ok {
+					first[k] = j.StartAt
+				} else if j.StartAt-t0 >= 59*time.Minute {
+					// a second attempt an hour (of simulated time) after the first:
+					// the schedule starved the job past the heartbeat timeout and mrp
+					// retried it - a failure of the simulator's making, not judged
+					starved[k] = true
+				}
 			}
 			for k, n := range seen {
+				if n > 1 && starved[k] {
+					r.Probes["job-starved-past-heartbeat-timeout-by-the-schedule"]++
+					continue
+				}
 				if n > 1 {
 					r.violate("C03", "executed-twice", fmt.Sprintf("%s/%s phase %s executed %d times", node, g.Fork, k, n))
 				}
